@@ -1,6 +1,11 @@
 mod c03;
 mod c04;
 mod c05;
+mod c07;
+mod c08;
+mod c09;
+mod c10;
+mod c11;
 mod c13;
 mod compose;
 mod lifecycle;
@@ -13,6 +18,11 @@ fn main() {
         ("C04", c04::run),
         ("C05", c05::run),
         ("C06", compose::run_c06),
+        ("C07", c07::run),
+        ("C08", c08::run),
+        ("C09", c09::run),
+        ("C10", c10::run),
+        ("C11", c11::run),
         ("C13", c13::run),
         ("C58", compose::run_c58),
     ]);
